@@ -959,10 +959,10 @@ Proof. exact (proj2 (bytes_eqb_eq l l) eq_refl). Qed.
 Section Conforms.
 Variable H : list N -> list N.
 
-Theorem to_boc_conforms : forall t k idx crc cache,
+Lemma to_boc_conforms_strong : forall t k idx crc cache,
   build H t = Ok k -> boc_wf t = true -> no_collision k -> implb cache idx = true ->
   N.of_nat (length (order k)) < 2 ^ 24 ->
-  exists d, to_boc k idx crc cache = Ok d /\
+  exists d, to_boc k idx crc cache = Ok d /\ bytes_ok d /\
     s_decode d = Some [t] /\
     exists cs, s_all_cells d = Some cs /\ nodup_trees cs = true /\ (forall c, In c cs <-> In c (subtrees t)).
 Proof.
@@ -1063,12 +1063,47 @@ Proof.
     unfold ents. destruct idx; [|reflexivity]. apply index_ok_entries. }
   assert (Htrees : s_trees recs 0 = map k_tree o).
   { exact (trees_suffix U Heq o w oU Nd Tp o [] eq_refl). }
-  exists d. split; [exact Hboc|]. split.
+  assert (Hdok : bytes_ok d).
+  { unfold d. rewrite <- frame_app. fold body. apply Forall_app. split; [exact Hbok|].
+    unfold tl. destruct crc; [unfold s_crc32c; apply le_bytes_ok|constructor]. }
+  exists d. split; [exact Hboc|]. split; [exact Hdok|]. split.
   - unfold s_decode. rewrite Hparse, Hvalid. cbn [sb_cells sb_roots]. rewrite Htrees.
     cbn [map]. rewrite Ehd. cbn [map nth N.to_nat]. rewrite Htree. reflexivity.
   - exists (map k_tree o). split; [|split].
     + unfold s_all_cells. rewrite Hparse, Hvalid. cbn [sb_cells]. rewrite Htrees. reflexivity.
     + exact Sp1.
     + exact Sp2.
+Qed.
+
+Theorem to_boc_conforms : forall t k idx crc cache,
+  build H t = Ok k -> boc_wf t = true -> no_collision k -> implb cache idx = true ->
+  N.of_nat (length (order k)) < 2 ^ 24 ->
+  exists d, to_boc k idx crc cache = Ok d /\
+    s_decode d = Some [t] /\
+    exists cs, s_all_cells d = Some cs /\ nodup_trees cs = true /\ (forall c, In c cs <-> In c (subtrees t)).
+Proof.
+  intros t k idx crc cache Hb Hwf Hnc Himp Hsz.
+  destruct (to_boc_conforms_strong t k idx crc cache Hb Hwf Hnc Himp Hsz) as (d & Hd & _ & Hrest).
+  exists d. split; [exact Hd|exact Hrest].
+Qed.
+
+(* every byte emitted by to_boc is a byte *)
+Lemma to_boc_bytes_ok : forall t k idx crc cache d,
+  build H t = Ok k -> boc_wf t = true -> no_collision k -> implb cache idx = true ->
+  N.of_nat (length (order k)) < 2 ^ 24 ->
+  to_boc k idx crc cache = Ok d -> bytes_ok d.
+Proof.
+  intros t k idx crc cache d Hb Hwf Hnc Himp Hsz Hd.
+  destruct (to_boc_conforms_strong t k idx crc cache Hb Hwf Hnc Himp Hsz) as (d' & Hd' & Hok & _).
+  rewrite Hd in Hd'. injection Hd' as ->. exact Hok.
+Qed.
+
+(* every sub-tree of a tree that builds, builds *)
+Lemma subtrees_build : forall t k, build H t = Ok k ->
+  forall s, In s (subtrees t) -> exists ks, build H s = Ok ks.
+Proof.
+  intros t k Hb s Hs. destruct (build_sub H t k Hb) as [Htree Hsub].
+  rewrite <- Htree, subtrees_k_tree in Hs. apply in_map_iff in Hs. destruct Hs as (c & <- & Hc).
+  exists c. exact (Hsub c Hc).
 Qed.
 End Conforms.
